@@ -22,6 +22,38 @@ pub fn probe() -> Val {
     Val::new(Kind::Ts, d * US_PER_DAY + pools::hms(17, 28, 56, 123_456))
 }
 
+/// Further probe values: one per month (so every month name is rendered) and seven consecutive
+/// days (every weekday name), morning and afternoon alternating (both meridians).
+pub fn name_probes() -> Vec<Val> {
+    let mut v = vec![];
+    for m in 1..=12i64 {
+        v.push(Val::new(Kind::Ts, pools::ymd(2003, m, 8 + m) * US_PER_DAY + pools::hms(if m % 2 == 0 { 5 } else { 17 }, 28, 56, 123_456)));
+    }
+    for d in 0..7i128 {
+        v.push(Val::new(Kind::Ts, (pools::ymd(1969, 12, 28) + d) * US_PER_DAY + pools::hms(if d % 2 == 0 { 0 } else { 12 }, 0, 0, 0)));
+    }
+    v
+}
+
+/// An accepted picture formatted for every name probe: the reference rendering, byte for byte
+/// (every month name, weekday name and meridian in the letter case the token selects).
+pub fn check_picture_names(pic: &str) -> Result<bool, String> {
+    if !check_picture(pic)? {
+        return Ok(false);
+    }
+    let toks = tokenize(pic).unwrap();
+    for v in name_probes() {
+        let lv = ad::to_lib(&v).map_err(|e| format!("probe rejected: {e:?}"))?;
+        let out = ad::format_direct(&lv, pic).map_err(|p| format!("formatting a probe with {pic:?}: {p}"))?;
+        let want_text = render(&v, &toks).expect("every token applies to a timestamp");
+        match out {
+            FmtOut::Text(s) if want_text.matches(&s) => {}
+            other => return Err(format!("picture {pic:?}: probe {} renders as {other:?}, the reference rendering is {:?} (name or letter case differ)", super::c05::show(Kind::Ts, v.raw), want_text.text)),
+        }
+    }
+    Ok(true)
+}
+
 /// Returns whether the reference accepts the picture.
 pub fn check_picture(pic: &str) -> Result<bool, String> {
     let want = tokenize(pic);
@@ -50,6 +82,10 @@ pub fn check_picture(pic: &str) -> Result<bool, String> {
 pub fn eval(case: &Case) -> Verdict {
     match case.kind.as_str() {
         "picture" => match check_picture(&case.s[0]) {
+            Ok(_) => Verdict::Pass,
+            Err(m) => Verdict::Fail(m),
+        },
+        "picture_names" => match check_picture_names(&case.s[0]) {
             Ok(_) => Verdict::Pass,
             Err(m) => Verdict::Fail(m),
         },
@@ -212,6 +248,36 @@ pub fn run(ctx: &Ctx) -> (Stats, Report) {
     }
     st.section("near_misses_blank_runs_limits", &mut mark);
 
+    // every letter-case pattern of every name / meridian token, alone and embedded, against
+    // every month name, weekday name and both meridians
+    {
+        let mut pics: Vec<String> = vec![];
+        for base in ["MONTH", "MON", "DAY", "DY", "AM", "PM", "A.M.", "P.M."] {
+            let letters: Vec<usize> = base.char_indices().filter(|(_, c)| c.is_ascii_alphabetic()).map(|(i, _)| i).collect();
+            for mask in 0..(1u32 << letters.len()) {
+                let mut b = base.as_bytes().to_vec();
+                for (k, &i) in letters.iter().enumerate() {
+                    if mask >> k & 1 == 1 {
+                        b[i] = b[i].to_ascii_lowercase();
+                    }
+                }
+                let t = String::from_utf8(b).unwrap();
+                pics.push(format!("DD {t} YYYY"));
+                pics.push(format!("{t}{t}"));
+                pics.push(t);
+            }
+        }
+        for pic in pics {
+            st.evaluations += name_probes().len() as u64;
+            st.nontrivial_enum += name_probes().len() as u64;
+            st.class("name-token-case-pattern-x-every-name");
+            if let Err(m) = check_picture_names(&pic) {
+                st.fail(0, Case::new(P, "picture_names", vec![], vec![pic]), m);
+            }
+        }
+    }
+    st.section("name_case_patterns_all_names", &mut mark);
+
     // E2: random token sequences with random case, long blank runs, optional near miss
     let nm: Vec<String> = NEAR_MISSES.iter().map(|s| s.to_string()).collect();
     let s = pt_run(
@@ -284,7 +350,7 @@ pub fn run(ctx: &Ctx) -> (Stats, Report) {
     st.section("random_token_sequences", &mut mark);
 
     let rep = Report {
-        rule: format!("E1: every string of length 0..={maxlen} over the {}-symbol picture alphabet (exhaustive); near-miss spellings alone and embedded; blank runs of every length 1..=700; 30..=42 repeated tokens around the 36-token limit. E2: proptest token sequences of 0..=40 tokens (34..=38 over-sampled) with random letter case, blank runs up to 600 and an optional near-miss spelling spliced in. Oracle: reference longest-match tokenizer: try_new is Ok iff it accepts (<= 36 tokens), rejection must be Error::InvalidFormat; for accepted pictures the text formatted for the probe 2003-04-09 17:28:56.123456 (every field distinct) must equal the reference rendering of the reference token list (identifies token identity, name case and exact blank-run length). Run under both build profiles. Non-trivial = accepted by the reference, or rejected but one end-deletion away from an accepted picture, or containing a near-miss spelling.", ALPHABET.len()),
+        rule: format!("E1: every string of length 0..={maxlen} over the {}-symbol picture alphabet (exhaustive); near-miss spellings alone and embedded; blank runs of every length 1..=700; 30..=42 repeated tokens around the 36-token limit. E2: proptest token sequences of 0..=40 tokens (34..=38 over-sampled) with random letter case, blank runs up to 600 and an optional near-miss spelling spliced in. Oracle: reference longest-match tokenizer: try_new is Ok iff it accepts (<= 36 tokens), rejection must be Error::InvalidFormat; for accepted pictures the text formatted for the probe 2003-04-09 17:28:56.123456 (every field distinct) must equal the reference rendering of the reference token list (identifies token identity, name case and exact blank-run length); every letter-case pattern of MONTH / MON / DAY / DY / AM / PM / A.M. / P.M. (alone, doubled, embedded) is formatted for 19 probes covering every month name, every weekday name and both meridians. Run under both build profiles. Non-trivial = accepted by the reference, or rejected but one end-deletion away from an accepted picture, or containing a near-miss spelling.", ALPHABET.len()),
         assumptions: vec!["a name token with lower-case first and upper-case second letter, and a mixed-case meridian token, have no style fixed by the statement: compared ignoring case".into()],
         exhaustive: false,
         extra: Default::default(),
